@@ -331,7 +331,10 @@ PROPERTIES["C02"] = {
 _C09V = ["Char", "Int8", "Int16", "Int32", "Int64", "StringTag", "Bin", "StringArray", "I18NString"]
 _C09_QUICK_PAIRS = {("StringTag", "Int64"), ("Int8", "Int32"), ("Int8", "Int16"), ("StringArray", "Int16"), ("Bin", "Int64"), ("Int32", "Int64"), ("I18NString", "Int32"), ("Char", "StringTag")}
 PROPERTIES["C09"] = {
-    "harnesses": [MH("c09_one_" + a, inputs="one record of type %s, tag and contents symbolic" % a, bounds="Header::from_entries with one record", timeout=600) for a in _C09V]
+    "harnesses": [MH("c09_build_" + n, inputs="builder scenario %s: file contents and modification times symbolic" % n, timeout=900,
+                     bounds="PackageBuilder .. build() from MIR; both emitted headers against the structural validator; rpmlib(FileCaps) declared when capabilities are present")
+                  for n in ("empty", "files2", "scriptlets", "scriptlets_plain", "deps", "caps_first", "caps_last")]
+    + [MH("c09_one_" + a, inputs="one record of type %s, tag and contents symbolic" % a, bounds="Header::from_entries with one record", timeout=600) for a in _C09V]
     + [MH("c09_pair_%s_%s" % (a, b), tier=("quick" if (a, b) in _C09_QUICK_PAIRS else "thorough"), timeout=900,
           inputs="two records of types %s and %s, tags symbolic (distinct), contents symbolic" % (a, b), bounds="Header::from_entries with two records") for a in _C09V for b in _C09V]
     + [MH(n, inputs="three records", bounds="Header::from_entries with three records", timeout=900) for n in ("c09_triple_str_i16_i64", "c09_triple_i8_i32_strs")]
@@ -399,6 +402,37 @@ PROPERTIES["C11"] = {
                             "environment stub: iterating a HashSet/HashMap yields its elements in an arbitrary permutation chosen by the solver, independently per iteration (RandomState)",
                             "two builds are compared by renaming the environment variables of the second; equality of output bytes is proved by congruence plus solver queries on the sub-terms that contain environment variables; "
                             "a difference that could only be excluded by reasoning inside a digest function counts as a difference", A_UF],
+    "technique": None,
+}
+
+# ------------------------------------------------------------------------------------------ C06 / C07 (MIR engine; partial: the builder itself runs from MIR)
+_A_BUILD = ["the builder runs from MIR: PackageBuilder::new, the setters, add_data (what with_file does after reading the source), prepare_data, build, Header::from_entries, the cpio writer; "
+            "environment stubs: clock (arbitrary instant per call), HashSet iteration order (arbitrary permutation), no compression (CompressionType::None; the compressors are FFI)",
+            "accessors and Package::files run from MIR on the built Package value; that writing and re-parsing preserves the headers is what C01/C05 decide", A_UF]
+_C06_STR = ("release", "url", "vcs", "description", "vendor", "packager", "group", "build_host", "cookie")
+PROPERTIES["C06"] = {
+    "harnesses": [MH("c06_required", inputs="name, version, licence, architecture, summary: 1 symbolic character each; epoch any u32", bounds="constructor arguments read back by their accessors", timeout=600)]
+    + [MH("c06_str_" + f, inputs="the five required strings and %s: 1 symbolic character each; epoch any u32" % f, bounds="builder.%s(x) read back by get_%s()" % (f, f), timeout=600) for f in _C06_STR]
+    + [MH("c06_all_strings", inputs="all fourteen string fields, 1 symbolic character each", bounds="all string setters together", timeout=900),
+       MH("c06_scriptlets_prog", inputs="eight scriptlets: text 2 symbolic characters, flags any u32, interpreter of two 1-character words", bounds="scriptlet setters vs scriptlet accessors", timeout=900),
+       MH("c06_scriptlets_plain", inputs="eight scriptlets: text 2 symbolic characters, flags any u32, no interpreter", bounds="scriptlet setters vs scriptlet accessors", timeout=900),
+       MH("c06_deps_all", inputs="two dependencies per kind (eight kinds): name, version 1 symbolic character, flags any u32", bounds="dependency setters vs accessors (in order, among the builder's own entries)", timeout=900),
+       MH("c06_files_1", inputs="one file: permission bits, flags, mtime, content byte, source date symbolic", bounds="add_data vs get_file_entries", timeout=900),
+       MH("c06_files_2", inputs="two files: permission bits, flags, mtimes, content bytes, source date symbolic", bounds="add_data vs get_file_entries", timeout=1800)],
+    "bounds": "strings of 1 symbolic printable ASCII character (scriptlet text 2); every u32 for epoch and flag words; up to two files with one content byte; no compression; unsigned",
+    "outside": "longer, empty, multi-line and multi-byte strings; changelog entries; verify_script (no accessor exists); capabilities and link targets of files; every compression type; signing; "
+               "the write -> parse leg (C01/C05 decide that parsing returns what was written)",
+    "assumptions": A_MIR + _A_BUILD,
+    "technique": None,
+}
+PROPERTIES["C07"] = {
+    "harnesses": [MH("c07_rt_" + "_".join(map(str, sz)), inputs="files of %s symbolic content bytes" % "/".join(map(str, sz)), timeout=900,
+                     bounds="PackageBuilder .. build() then Package::files() / FileIterator::next: cpio writer and reader, padding at every size mod 4, order by path") for sz in ((0,), (1,), (3,), (4,), (5,), (2, 3), (4, 0), (1, 2, 3))]
+    + [MH("c04_fileiter_%d" % n, role="foreign", inputs="header file size: any 64-bit value; %d symbolic content bytes in a well-formed newc archive" % n, bounds="foreign package: FileIterator::next returns the archive's bytes whatever size the header records", timeout=600)
+       for n in (0, 1, 3, 4)],
+    "bounds": "up to three files of 0..5 content bytes each (every size mod 4), contents symbolic, uncompressed payload, standard (newc) cpio",
+    "outside": "compressed payloads (FFI); the stripped (large-file) cpio format, which needs more than 4 GiB of content; files of more than 5 bytes; names other than /d/f<i>; foreign packages beyond the one-entry harnesses",
+    "assumptions": A_MIR + _A_BUILD,
     "technique": None,
 }
 
@@ -484,8 +518,6 @@ PROPERTIES["C04"].update(claim="Absence of panics, arithmetic overflow and out-o
                          "the fixed-size segments incl. truncated slices, for every accessor on every variant, and for the listed whole-header shapes.", note=_NOTE)
 
 NOT_APPLICABLE = {
-    "C06": "builder -> package -> accessors is a whole-program run through PackageBuilder::prepare_data (cpio + hashing + two HashSets); a fully concrete run did not finish symbolic execution in 14 min; the reachable fragment (records -> bytes -> records) is claimed under C01/C05/C09",
-    "C07": "needs the builder, FFI compressors and the cpio writer/reader pair whose thirteen format!/from_str_radix fields kept a 3-byte round trip beyond 15 min of symbolic execution",
     "C10": "every step goes through real OpenPGP packet parsing and public-key cryptography (RSA/EdDSA/ECDSA big-number arithmetic), outside SAT reach; an abstract signer cannot produce packets the real parser accepts",
 }
 
@@ -522,6 +554,11 @@ PROPERTIES["C02"].update(claim="Package::verify_signature is symbolically execut
 PROPERTIES["C09"].update(claim="Header::from_entries (sorting, offset assignment, alignment, region tag and trailer) is symbolically executed from MIR for every ordered pair of data types and checked by a strict validator "
                          "modelled on rpm's own header verification, plus parse-back of the emitted bytes; Lead::new for names of 0..70 bytes. Whole builder output and the cpio writer are outside reach.", note=_NOTE_MIR)
 
+PROPERTIES["C06"].update(claim="Partial: the builder runs from MIR; for every value within the bounds each string field, the epoch, the eight scriptlets (text, flags, interpreter), the dependencies of all eight kinds (in order) and "
+                         "each file's path, mode, owner, group, flags, size, content digest and clamped modification time are returned unchanged by the matching accessor of the built package. "
+                         "Changelog, capabilities, link targets, compression types, signing and the write/parse leg are outside the claim.", note=_NOTE_MIR)
+PROPERTIES["C07"].update(claim="Partial: for packages built by this library (uncompressed, standard cpio, up to three files of 0..5 symbolic bytes covering every size mod 4) Package::files() yields every file's exact content "
+                         "under its own path, size and digest, in path order; for a foreign one-entry archive the iterator returns the archive's bytes whatever size the header records. Compression and the large-file format are outside reach.", note=_NOTE_MIR)
 PROPERTIES["C11"].update(claim="Partial (in-process reproducibility and clamping): the builder itself (new, add_data, build, write) is symbolically executed from MIR with the clock and every hash-set iteration "
                          "order as arbitrary environment choices: for the listed configurations any two builds of the same inputs produce the same bytes, and BUILDTIME and every file mtime are at most the source date. "
                          "Signing, compression and cross-process effects other than hash seeds and the clock are outside reach.", note=_NOTE_MIR)
